@@ -59,6 +59,10 @@ def gen(ctx):
             if fam == "plain" and len(h["ops"]) == 4 and (o["k"] != "exec" or (o["sa"], o["cb"], o["cancel"]) in core):
                 keep.append(h)
                 continue
+            if fam == "plain" and len(h["ops"]) == 5 and (h["ops"][1]["v"] in ("emptypath", "empty", "fdexec")
+                                                         or o["v"] in ("fdexec", "envrun")):
+                keep.append(h)          # the carry-over family always runs
+                continue
             p = {"gate": 0.5, "race": 0.3, "loss": 0.5, "plain": 0.12}[fam]
             if ctx.rng.random() < p:
                 keep.append(h)
